@@ -315,6 +315,26 @@ TRUSTED = TRUSTED + [
 ]
 
 
+# --- C04 last clause for tzical zones (wt-tzrule): the reported offset is the one WRITTEN in the definition for the component in force
+# (negative non-whole-hour and with-seconds TZOFFSETFROM/TZOFFSETTO values; expected values never pass through tzical._parse_offset)
+_oracle_without_ical_stated = oracle
+_replay_without_ical_stated = replay
+
+
+def oracle(ctx):
+    _oracle_without_ical_stated(ctx)
+    import tzshared
+    tzshared.ical_stated_offsets(ctx)
+
+
+def replay(ctx, payload):
+    if payload["violation"]["case"].get("kind") == "ical-stated-offset" and payload["violation"]["case"].get("phase") == "lookup":
+        import tzshared
+        return tzshared.replay_ical_stated(payload)
+    return _replay_without_ical_stated(ctx, payload)
+# --- end of the appended block
+
+
 # --- translator tie for tzutc / tzoffset (wt-tzfile): their methods and tzoffset.__init__ are re-translated from tz/tz.py on every run
 # (harness/translate_tzhelp.py -> Generated/TzFixedKernels.lean; obligations in Properties/TzFixedGen.lean) and validated by tzhelp.fixed / tzhelp.utc
 _correspondence_without_tzfixed = correspondence
